@@ -21,7 +21,11 @@ import (
 
 // Protocol crash, 3-replica runs:
 //
-//	run3 seed=<n> point=<name> k=<k> writes=<w> victim=leader|follower [delay=<ms>] [win=<n>] [phase=2]
+//	run3 seed=<n> point=<name> k=<k> writes=<w> victim=leader|follower [delay=<ms>] [win=<n>] [phase=2] [killat=<acks> [revive=1]]
+//
+// (killat: the victim is killed with SIGKILL after that many acknowledgements, in the MIDDLE of the history; the client
+// goes on writing — to the new leader when the leader was killed; what the dead leader left unanswered is reported as
+// optional —; with revive=1 the victim is restarted a fifth of the history later, while the writes go on.)
 //
 // Three CHILD PROCESSES, each a real server.Server with one replica of the namespace (raft over rafthttp between the
 // processes, snapshot transfer between their data directories through the servers' HTTP API + cp, SnapCount 15). The
@@ -241,7 +245,7 @@ func (g *group3) waitLeader(d time.Duration) int {
 	return -1
 }
 
-func runCrash3(c *Ctx, seed int64, point string, k, n, delay, win int, victimRole string, phase int) string {
+func runCrash3(c *Ctx, seed int64, point string, k, n, delay, win int, victimRole string, phase int, killAt int, revive bool) string {
 	rng := rand.New(rand.NewSource(seed))
 	root, err := ioutil.TempDir("", "zvh-crash3-")
 	if err != nil {
@@ -255,6 +259,9 @@ func runCrash3(c *Ctx, seed int64, point string, k, n, delay, win int, victimRol
 	g := &group3{root: root, ports: ports}
 	defer g.killAll()
 	tag := fmt.Sprintf("seed=%d point=%s k=%d delay=%d win=%d victim=%s phase=%d replicas=3", seed, point, k, delay, win, victimRole, phase)
+	if killAt > 0 {
+		tag += fmt.Sprintf(" killat=%d revive=%v", killAt, revive)
+	}
 	victim := rng.Intn(3)
 	env := ""
 	if point != "kill" {
@@ -331,7 +338,47 @@ func runCrash3(c *Ctx, seed int64, point string, k, n, delay, win int, victimRol
 	victimDead := !g.kids[victim].alive()
 	earlyKill := n / 4
 	secondLife := false
+	revived := false
+	killedAtAnswered := 0
 	for sent < n || answered < sent {
+		if killAt > 0 && !victimDead && answered >= killAt && g.kids[victim].alive() {
+			// kill -9 of one replica in the middle of the history; the client goes on (with the new leader, if the leader died)
+			time.Sleep(time.Duration(rng.Intn(3000)) * time.Microsecond)
+			g.kids[victim].cmd.Process.Signal(syscall.SIGKILL)
+			<-g.kids[victim].dead
+			victimDead, died = true, "kill"
+			killedAtAnswered = answered
+			c.Note("crash3-kill9-mid-history:" + map[bool]string{true: "leader", false: "follower"}[victim == leader])
+			if victim == leader {
+				for a := range L.acks {
+					record(a)
+				}
+				// what the dead leader left unanswered may or may not be in the log; everything sent from now on follows it
+				for _, w := range ws[:sent] {
+					if w.st == "none" {
+						w.st, w.reply = "err", "-"
+					}
+				}
+				answered = sent
+				nl := g.waitLeader(25 * time.Second)
+				if nl < 0 {
+					c.Violation("harness", tag+": no new leader 25 s after the kill of the leader")
+					return "err no-leader"
+				}
+				leader = nl
+				L = g.kids[leader]
+				c.Note("crash3-client-moved-to-new-leader")
+			}
+		}
+		if killAt > 0 && revive && victimDead && !revived && answered >= killedAtAnswered+n/5 {
+			// the killed replica comes back while the writes go on
+			g.kids[victim].in.Close()
+			g.kids[victim].outf.Close()
+			if err := g.start(victim, ""); err == nil {
+				revived = true
+				c.Note("crash3-revived-mid-history")
+			}
+		}
 		if !L.alive() {
 			break
 		}
@@ -405,8 +452,10 @@ func runCrash3(c *Ctx, seed int64, point string, k, n, delay, win int, victimRol
 		<-g.kids[victim].dead
 		victimDead = true
 	}
-	g.kids[victim].in.Close()
-	g.kids[victim].outf.Close()
+	if !revived {
+		g.kids[victim].in.Close()
+		g.kids[victim].outf.Close()
+	}
 	if phase == 2 && env != "" {
 		// second life of the victim with the crash point armed: it has to catch up, possibly by a snapshot
 		secondLife = true
@@ -439,7 +488,11 @@ func runCrash3(c *Ctx, seed int64, point string, k, n, delay, win int, victimRol
 			flagged = class
 		}
 	}
-	if err := g.start(victim, ""); err != nil {
+	var startErr error
+	if !revived {
+		startErr = g.start(victim, "")
+	}
+	if startErr != nil {
 		restart = "failed"
 	} else if l := g.kids[victim].waitLine("ready", 30*time.Second); !strings.HasPrefix(l, "ready") {
 		restart = "failed"
